@@ -37,18 +37,22 @@ pub fn real_json(r: &Real) -> Value {
 
 /// Which optimizer pass (if any) first changes the model's verdict on this case, and does the
 /// model on the fully rewritten AST agree with what the real engine did?
-pub fn attribute(p: &Prepared, rule: &str, input: &str, real: &Real) -> (Option<&'static str>, bool) {
-    let st = passes::stages(&p.ast);
-    let m0 = run_model(&Gm::new(&st[0]), rule, input);
+pub fn attribute(st: &[Gm], rule: &str, input: &str, real: &Real) -> (Option<&'static str>, bool) {
+    let m0 = run_model(&st[0], rule, input);
     let mut first = None;
+    let mut last = m0.clone();
     for i in 1..=6 {
-        let mi = run_model(&Gm::new(&st[i]), rule, input);
-        if mi != m0 && first.is_none() {
+        last = run_model(&st[i], rule, input);
+        if last != m0 && first.is_none() {
             first = Some(passes::PASS_NAMES[i - 1]);
         }
     }
-    let m6 = run_model(&Gm::new(&st[6]), rule, input);
-    (first, agrees(&m6, real))
+    (first, agrees(&last, real))
+}
+
+/// The seven stages of the pass pipeline as model grammars (built once per grammar, on demand).
+pub fn stage_models(p: &Prepared) -> Vec<Gm> {
+    passes::stages(&p.ast).iter().map(|r| Gm::new(r)).collect()
 }
 
 pub fn nontrivial(r: &Real) -> bool {
@@ -61,6 +65,7 @@ pub fn nontrivial(r: &Real) -> bool {
 
 pub fn check_grammar(p: &Prepared, known: &Known, stats: &mut Stats) {
     let mut any = false;
+    let mut stage_gms: Option<Vec<Gm>> = None;
     for start in &p.starts {
         for input in p.inputs.iter() {
             let m = run_model(&p.gm, start, input);
@@ -98,7 +103,7 @@ pub fn check_grammar(p: &Prepared, known: &Known, stats: &mut Stats) {
                 continue;
             }
             // disagreement: classify
-            let (pass, rewritten_agrees) = attribute(p, start, input, &r);
+            let (pass, rewritten_agrees) = attribute(stage_gms.get_or_insert_with(|| stage_models(p)), start, input, &r);
             let case = json!({
                 "kind": "real-differs-from-documented-semantics",
                 "slice": p.label, "grammar": p.text, "rule": start, "input": input,
